@@ -49,6 +49,7 @@ func c20CLI(c *Ctx, run *ev.Run) {
 	defer os.RemoveAll(dir)
 	n := c.Pick(2, 10)
 	for i := 0; i < n; i++ {
+		waitForPorts(run, 16000, 90*time.Second)
 		limit := int64(60 + 45*i)
 		srv, err := newWireServer()
 		if err != nil {
